@@ -1045,3 +1045,57 @@ def no_readahead(ctx):
                       'size past it' % (f.key if f is not None else where))
     else:
         ctx.ok('crate:no-read-ahead-buffer', '-', 'no BufReader construction and no BufReader-typed field in the crate (%d functions, %d types scanned)' % (len(F.fns), len(F.adts)))
+
+
+# --------------------------------------------------------------------------- FLUSH-FORWARD
+
+@rule('FLUSH-FORWARD', ['C05'], floor=8)
+def flush_forward(ctx):
+    """A writer that forwards `flush` to its sink forwards it on every successful path: in each `Write::flush`
+    implementation that calls `flush` on something else (the sink, or an inner writer that owns the sink) at all,
+    no `Ok(())` return is reachable from the entry without passing such a call. A shortcut (`if nothing pending
+    { return Ok(()) }`) makes a retry after a failed sink flush report success without the sink ever having been
+    flushed, and hides the sink's error from the second call on."""
+    F = ctx.facts
+    n = 0
+    impls = [f for f in F.fns if f.impl and f.impl.get('trait') and last_seg(f.impl.get('trait')) == 'Write' and f.name == 'flush']
+    # which implementations reach a sink at all: a flush call on a generic/dyn receiver, or on an implementation that does
+    fwd = set()
+    changed = True
+    while changed:
+        changed = False
+        for f in impls:
+            if f.key in fwd:
+                continue
+            for bi, t, c in f.calls():
+                if c.name != 'flush' or not t['args']:
+                    continue
+                tg = F.resolve_callee(c)
+                if (not tg and c.trait is not None) or any(g.key in fwd for g in tg):
+                    fwd.add(f.key)
+                    changed = True
+                    break
+    for f in impls:
+        inner = set()
+        for bi, t, c in f.calls():
+            if c.name == 'flush' and t['args']:
+                tg = F.resolve_callee(c)
+                if tg and all(g is f for g in tg):
+                    continue   # recursion on self
+                if (not tg and c.trait is not None) or any(g.key in fwd for g in tg):
+                    inner.add(bi)
+        key = '%s:sink-flushed-on-every-Ok-path' % f.key
+        if not inner:
+            ctx.info(key, f.loc(0), 'does not forward flush at all (nothing buffered on behalf of the sink, or by design)')
+            continue
+        n += 1
+        free = f.reach_from([0], stop=inner)
+        bad = [b for b in sorted(free) for s in f.blocks[b]['stmts'] if s['k'] == 'assign' and s['lhs']['l'] == 0 and not s['lhs']['p'] and
+               s['rv']['r'] == 'agg' and s['rv'].get('variant_name') == 'Ok']
+        if bad:
+            ctx.violation(key, f.loc(bad[0]), 'returns Ok(()) on a path that never calls the sink\'s flush although other paths do: after a failed '
+                          'sink flush a retry takes this path and reports success; the sink\'s error is returned at most once')
+        else:
+            ctx.ok(key, f.loc(sorted(inner)[0]), 'every Ok return lies behind one of %d forwarded flush call(s)' % len(inner))
+    if not n:
+        ctx.anchor_missing('Write::flush implementations that forward to a sink')
